@@ -184,7 +184,7 @@ func runC10(c *core.Ctx) {
 			}
 			for di, df := range defects {
 				// quick: documents one mutation away from a base get every third defect kind (the bases get all of them)
-				if !c.Thorough() && dist > 0 && di%3 != 0 && df.Needs != "interface" && df.Needs != "union" {
+				if !c.Thorough() && dist > 0 && di%4 != 0 && df.Needs != "interface" && df.Needs != "union" {
 					continue
 				}
 				// a union container only holds fragments (its member fragments are visited as object sites): only the
@@ -359,7 +359,7 @@ func runC10(c *core.Ctx) {
 		return true
 	})
 	c10InterfaceArguments(c)
-	c.R.Bound = fmt.Sprintf("base documents + %d mutations; one defect at every selection-set site (quick: every third defect kind on the mutated documents); 4 bad directives on every fragment definition and operation, fragments after and before the operations (quick: base documents); arguments only an implementer declares, given through the interface (6 request shapes)", k)
+	c.R.Bound = fmt.Sprintf("base documents + %d mutations; one defect at every selection-set site (quick: every fourth defect kind on the mutated documents); 4 bad directives on every fragment definition and operation, fragments after and before the operations (quick: base documents); arguments only an implementer declares, given through the interface (6 request shapes)", k)
 	if !completed {
 		c.Cap("deadline reached")
 	}
